@@ -87,6 +87,23 @@ def wl_history(rng, length):
     return dict(kind="whist", words=words, wobjs=objs, steps=steps, maxTrials=0, failRateOne=0, tag="seeded-wl")
 
 
+def tlc_histories(ctx, rng, n):
+    """spec -> code: every history of <= 3 steps over two recipes from Gen_Hist.tla (sampled in the quick tier)."""
+    out = ctx.path("gen-hist.ndjson")
+    ctx.tlc("Gen_Hist", "Gen_Hist.cfg", env={"VERIF_GEN_OUT": out}, tag="gen-hist")
+    ctx.states -= 1
+    hs = vlib.read_ndjson(out)
+    total = len(hs)
+    rng.shuffle(hs)
+    res = []
+    for h in hs[:n]:
+        objs = [dict(len=2, allow=4, require=0, exclude=0, allowChars=o("ab "), requireSets=[o("a b")], excludeChars=[]),
+                dict(len=2, allow=4, require=0, exclude=0, allowChars=o("ab "), requireSets=[o("a"), o("b")], excludeChars=[])]
+        steps = list(h["steps"]) + [dict(op="call", obj=0, paths=2), dict(op="call", obj=1, paths=2)]
+        res.append(dict(kind="chist", objs=objs, steps=steps, maxTrials=0, failRateOne=1, tag="tlc-history"))
+    return res, total
+
+
 def run_hist(ctx, hists, name):
     sf = ctx.path("hist-%s.ndjson" % name)
     with open(sf, "w") as f:
@@ -135,6 +152,9 @@ def run(ctx):
     ctx.cover["non_vacuity"] = "with CacheDerived/PointerReceiver = TRUE TLC finds a history whose result reflects stale fields"
     hists = directed_char() + [char_history(rng, rng.randint(12, 40 if quick else 60)) for _ in range(30 if quick else 500)]
     hists += [wl_history(rng, rng.randint(10, 30)) for _ in range(16 if quick else 250)]
+    th, total = tlc_histories(ctx, rng, 200 if quick else 100000)
+    hists += th
+    ctx.cover.update(tlc_generated_histories=len(th), tlc_history_universe=total)
     cfiles, wfiles = run_hist(ctx, hists, "c15")
     cverd = ctx.validate_many("CharTrace", cfiles)
     wverd = ctx.validate_many("WordTrace", wfiles)
